@@ -190,6 +190,10 @@ static struct root roots[] = {
     { "S2", C4_S2_parse_json_as_root, C4_S2_verify_as_root_with_identifier, C4_S2_verify_as_root_with_identifier_and_size },
     { "S2s", C4_S2s_parse_json_as_root, C4_S2s_verify_as_root_with_identifier, C4_S2s_verify_as_root_with_identifier_and_size },
     { "S3", C4_S3_parse_json_as_root, C4_S3_verify_as_root_with_identifier, C4_S3_verify_as_root_with_identifier_and_size },
+    { "Twin", C4_Twin_parse_json_as_root, C4_Twin_verify_as_root_with_identifier, C4_Twin_verify_as_root_with_identifier_and_size },
+    { "DpT", C4_DpT_parse_json_as_root, C4_DpT_verify_as_root_with_identifier, C4_DpT_verify_as_root_with_identifier_and_size },
+    { "Dp1", C4_Dp1_parse_json_as_root, C4_Dp1_verify_as_root_with_identifier, C4_Dp1_verify_as_root_with_identifier_and_size },
+    { "Multi", C4_Multi_parse_json_as_root, C4_Multi_verify_as_root_with_identifier, C4_Multi_verify_as_root_with_identifier_and_size },
     { "Fix", C4_Fix_parse_json_as_root, C4_Fix_verify_as_root_with_identifier, C4_Fix_verify_as_root_with_identifier_and_size },
     { 0, 0, 0, 0 }
 };
